@@ -38,7 +38,7 @@ def thorough_extras(ctx, prop, repo):
             m = json.load(open(mp))
             if m.get("breaks_property") == prop:
                 seeds.append((d, os.path.join(sd, d, "patch.diff")))
-    benign = benigntest.load()
+    benign = benigntest.load() + benigntest.load_ext()
     out = {"mutants": [], "seeds": [], "benign": []}
 
     def mut(m):
@@ -52,7 +52,7 @@ def thorough_extras(ctx, prop, repo):
         return ("seed", d, {"rc": None if res is None else res[prop][0], "fired": fired})
 
     def ben(b):
-        patch = os.path.join(VERIF, "mutants", "benign", b["name"] + ".patch")
+        patch = os.path.join(VERIF, "mutants", "benign_ext" if b.get("ext") else "benign", b["name"] + ".patch")
         res, err = mutate.run(patch, [prop], repo=repo)
         return ("ben", b["name"], {"rc": None if res is None else res[prop][0],
                                    "fired": [] if res is None else sorted(set(_re.findall(r"^\s+\[(C\d\d[.\w]*)\] (\S+)", res[prop][1], _re.M)))})
